@@ -506,6 +506,10 @@ def _optimize(node: IRnode, parent: Optional[IRnode], is_cond: bool) -> Tuple[bo
         if res is not None:
             changed = True
             should_check_symbols = True
+            # the binop rewrite must keep the symbols of its (already
+            # optimized) operands; optimizing an operand may itself have
+            # legitimately removed symbols (dead branch elimination)
+            starting_symbols = set().union(*(arg.unique_symbols for arg in argz))
             value, argz, annotation = res  # type: ignore
             return finalize(value, argz)
 
